@@ -121,7 +121,7 @@ var clauseKeywords = map[string]bool{
 	"func": true, "trusted": true, "pure": true, "inline": true, "ignore": true, "spec": true, "lemma": true, "import": true,
 	"requires": true, "requires_inv": true, "ensures": true, "modifies": true, "loop": true, "arith": true, "overflow": true, "allow_panic": true,
 	"theory": true, "untrusted_input": true, "pragma": true, "assert": true, "note": true, "tparams": true, "ghost": true, "decl": true, "atcall": true, "ignorepkg": true, "trusted_ensures": true,
-	"guarded_by": true, "requires_held": true, "holds_during": true, "lock_order": true, "unshared": true, "lock_alias": true, "assert_before": true, "assert_after": true, "hint_after": true, "hint_before": true, "assume_after": true, "closure_requires": true, "let_after": true, "use_lemma": true, "havoc_after": true, "apply_after": true, "from_requires": true,
+	"guarded_by": true, "requires_held": true, "holds_during": true, "returns_held": true, "lock_order": true, "unshared": true, "lock_alias": true, "assert_before": true, "assert_after": true, "hint_after": true, "hint_before": true, "assume_after": true, "closure_requires": true, "let_after": true, "use_lemma": true, "havoc_after": true, "apply_after": true, "from_requires": true,
 }
 
 type rawClause struct {
@@ -317,7 +317,7 @@ func loadContracts(dir, pkgPath string) (*PkgContracts, error) {
 	var lockClauses []rawClause
 	for _, c := range clauses {
 		switch c.kw {
-		case "guarded_by", "requires_held", "holds_during", "lock_order", "unshared", "lock_alias":
+		case "guarded_by", "requires_held", "holds_during", "returns_held", "lock_order", "unshared", "lock_alias":
 			lockClauses = append(lockClauses, c)
 			cur = nil
 			continue
